@@ -217,6 +217,12 @@ def run(ctx):
         "DeterministicAcrossHashSeeds",
         "the debug store is perturbed (cleared / filled with junk entries for the genes of the world) by the harness: "
         "results must not change (StoreIsWriteOnly)",
+        "RefinementIndependent compares a refinement as the multiset of refined copies (minor, added, missing) and its score "
+        "minus the carried term; the same assignment with scores within 1e-5 is NOT decided (the low-order score digits are "
+        "the construction-order tie-break weights of minor.py:446-452, which follow the order of the pooled allele list): "
+        "counted in undecided_in_fixed_point_band",
+        "the monitor's memory (first result per operation and arguments) is shared by all histories replayed on the same "
+        "world, so a result is also compared with what OTHER processes returned for the same call",
     ]
     # ------------------------------------------------------------------ MC + hazards
     ctx.mc("mc/MC_History", "mc/MC_History_quick.cfg" if quick else "mc/MC_History.cfg", label="MC_History(len<=%d)" % (4 if quick else 5),
@@ -271,7 +277,7 @@ def run(ctx):
         for j, h in enumerate(pairs_sel):
             add(worlds[j % len(worlds)], [alpha[i - 1] for i in h], "length2", reload_cov=(j % 5 == 0))
         ctx.parts[f"pairs_{'sim' if sim else 'syn'}"]["run"] = len(pairs_sel)
-        nsim = (16 if sim else 30) if quick else (500 if sim else 1200)
+        nsim = (16 if sim else 30) if quick else (300 if sim else 700)
         alpha6, longs = generate(ctx, sim, 2 if quick else 7, 6, "sim", num=max(20, nsim // 2), seed=1000 + ctx.seed)
         rng.shuffle(longs)
         for j, h in enumerate(longs[:nsim]):
@@ -306,7 +312,7 @@ def run(ctx):
     # ------------------------------------------------------------------ refinement families
     gene_specs = [("toy", "hg19"), ("toy", "hg38"), ("cyp2c19", "hg19"), ("cyp2d6", "hg19")] if quick else [
         ("toy", "hg19"), ("toy", "hg38"), ("cyp2c19", "hg19"), ("cyp2d6", "hg19"), ("cyp2c9", "hg38"), ("cyp2a6", "hg19"), ("cyp2b6", "hg19")]
-    fams = make_families(rng, 10 if quick else 120, 1000000, gene_specs, small=quick)
+    fams = make_families(rng, 10 if quick else 60, 1000000, gene_specs, small=quick)
 
     # ------------------------------------------------------------------ execute
     order = sorted(range(len(tasks)), key=lambda i: -(3 * sum(1 for o in tasks[i][1] if o["k"] in ("Genotype", "GenotypeMulti", "FreshProcess"))
